@@ -1031,8 +1031,161 @@ func (c *closureCase) Key() string       { return "closure of /repo" }
 func (c *closureCase) Classes() []string { return []string{c.stats} }
 func (c *closureCase) Nontrivial() bool  { return true }
 
+// ---------------------------------------------------------------- module layouts: SourceDir and LocateInPackage
+
+// modCase: a main module and a second module it requires, replaced by a directory (beside the main module or
+// nested in it); every package is asked for SourceDir, one position is located.
+type modCase struct {
+	Main   string `json:"main"`   // module path of the main module
+	Lib    string `json:"lib"`    // module path of the required module
+	LibRel string `json:"librel"` // where the replacement lives, relative to the main module: ../lib | ./inner | ../deep/er/lib
+	Query  int    `json:"query"`  // which package the located position is in
+	out    string
+	line   string
+	have   bool
+}
+
+func (c *modCase) pkgs() []struct{ path, dir string } {
+	lib := filepath.Clean(filepath.Join("app", c.LibRel))
+	return []struct{ path, dir string }{
+		{c.Main, "app"}, {c.Main + "/a", "app/a"}, {c.Main + "/a/b", "app/a/b"},
+		{c.Lib, lib}, {c.Lib + "/sub", lib + "/sub"}, {c.Lib + "/sub/leaf", lib + "/sub/leaf"},
+	}
+}
+
+func (c *modCase) eval() {
+	c.have = true
+	c.out = guard(func() string {
+		fixLoadEnv()
+		root, err := os.MkdirTemp("", "vhmod")
+		if err != nil {
+			return "loaderr"
+		}
+		defer os.RemoveAll(root)
+		root, _ = filepath.EvalSymlinks(root)
+		ps := c.pkgs()
+		w := func(rel, content string) {
+			full := filepath.Join(root, rel)
+			os.MkdirAll(filepath.Dir(full), 0o755)
+			os.WriteFile(full, []byte(content), 0o644)
+		}
+		w("app/go.mod", fmt.Sprintf("module %s\n\ngo 1.24\n\nrequire %s v0.0.0\n\nreplace %s => %s\n", c.Main, c.Lib, c.Lib, c.LibRel))
+		w(ps[3].dir+"/go.mod", fmt.Sprintf("module %s\n\ngo 1.24\n", c.Lib))
+		w("app/main.go", fmt.Sprintf("package app\n\nimport (\n\t_ %q\n\t_ %q\n)\n\ntype Root int\n", c.Main+"/a", c.Lib))
+		w("app/a/a.go", fmt.Sprintf("package a\n\nimport _ %q\n\ntype A int\n", c.Main+"/a/b"))
+		w("app/a/b/b.go", fmt.Sprintf("package b\n\nimport _ %q\n\ntype B int\n", c.Lib+"/sub"))
+		w(ps[3].dir+"/lib.go", "package lib\n\ntype Lib int\n")
+		w(ps[4].dir+"/sub.go", fmt.Sprintf("package sub\n\nimport _ %q\n\ntype Sub int\n", c.Lib+"/sub/leaf"))
+		w(ps[5].dir+"/leaf.go", "package leaf\n\ntype Leaf int\n")
+		old := os.Stdout
+		devnull, _ := os.OpenFile(os.DevNull, os.O_WRONLY, 0)
+		os.Stdout = devnull
+		u, err := gengotypes.Load([]string{"./..."}, func(cfg *packages.Config) { cfg.Dir = filepath.Join(root, "app") })
+		os.Stdout = old
+		devnull.Close()
+		if err != nil || u == nil {
+			return "loaderr"
+		}
+		rel := func(d string) string {
+			r, err := filepath.Rel(root, filepath.Clean(d))
+			if err != nil {
+				return "?" + d
+			}
+			return filepath.ToSlash(r)
+		}
+		var dirs, toks []string
+		oracle := ""
+		for _, pp := range ps {
+			p := u.Package(pp.path)
+			if p == nil {
+				return "missing-package " + pp.path
+			}
+			sd := p.SourceDir()
+			dirs = append(dirs, rel(sd))
+			if oracle == "" && filepath.Clean(sd) != filepath.Join(root, pp.dir) {
+				oracle = fmt.Sprintf("SourceDir() of %s is %q, its files are in %q", pp.path, sd, filepath.Join(root, pp.dir))
+			}
+			if m := p.Module(); m != nil {
+				toks = append(toks, pp.path+";"+m.Path+";"+rel(m.Dir))
+			} else {
+				toks = append(toks, pp.path+";-;-")
+			}
+		}
+		qp := u.Package(ps[c.Query].path)
+		loc := "none"
+		if len(qp.Files()) > 0 {
+			lp := u.LocateInPackage(qp.Files()[0].Pos())
+			if lp != nil && fmt.Sprintf("%v", lp) != "<nil>" {
+				loc = lp.Pkg().Path()
+			}
+			if oracle == "" && lp != qp {
+				oracle = fmt.Sprintf("LocateInPackage(position in %s) returned %s", ps[c.Query].path, loc)
+			}
+		}
+		c.line = "locate " + ps[c.Query].dir + " " + strings.Join(toks, " ")
+		out := "dirs " + strings.Join(dirs, ",") + " locate " + loc
+		if oracle != "" {
+			out += " ORACLE:" + oracle
+		}
+		return out
+	})
+}
+
+func (c *modCase) Line() string {
+	if !c.have {
+		c.eval()
+	}
+	return c.line
+}
+func (c *modCase) Run() string {
+	if !c.have {
+		c.eval()
+	}
+	return strings.Split(c.out, " ORACLE:")[0]
+}
+func (c *modCase) Oracle(out string) string {
+	if i := strings.Index(c.out, " ORACLE:"); i >= 0 {
+		return c.out[i+8:]
+	}
+	if out == "panic" || out == "loaderr" || strings.HasPrefix(out, "missing-package") {
+		return "loading the two-module layout failed: " + out
+	}
+	return ""
+}
+func (c *modCase) Shrinks() []Case { return nil }
+func (c *modCase) Key() string     { return fmt.Sprintf("%s %s %s q%d", c.Main, c.Lib, c.LibRel, c.Query) }
+func (c *modCase) Classes() []string {
+	return []string{"replacement:" + c.LibRel, fmt.Sprintf("query:%d", c.Query)}
+}
+func (c *modCase) Nontrivial() bool { return true }
+
 func init() {
 	register(&Property{ID: "C13", Streams: []*Stream{
+		{
+			Name: "modules", New: func() Case { return &modCase{} },
+			Enum: func(tier string, yield func(Case)) {
+				mains := []string{"example.com/app", "app", "example.com/app/v2"}
+				libs := []string{"example.com/lib", "lib.io/x.v3", "example.com/app/inner"}
+				rels := []string{"../lib", "./inner", "../deep/er/lib"}
+				for mi, m := range mains {
+					for li, l := range libs {
+						for ri, rl := range rels {
+							if tier != "thorough" && (mi+li+ri)%3 != 0 {
+								continue
+							}
+							for q := 0; q < 6; q++ {
+								if tier != "thorough" && q%2 != (mi+li)%2 {
+									continue
+								}
+								yield(&modCase{Main: m, Lib: l, LibRel: rl, Query: q})
+							}
+						}
+					}
+				}
+			},
+			EnumExhaustive: false, ShrinkBudget: 1, MaxShrinks: 3,
+			Rule: "two-module layouts: a main module (3 module paths) requiring a second module (3 paths, one of them looking like a sub-path of the main module) that a replace directive points at a directory beside the main module, nested inside it, or deeper elsewhere; three packages per module; compared with the model (path arithmetic of SourceDir, LocateInPackage as search over the universe): the source directory of all six packages and the package located for a position; oracle: SourceDir() = the directory the harness wrote the files to, LocateInPackage(position) = the package itself",
+		},
 		{
 			Name: "tables", Quick: 450, Thorough: 4500, New: func() Case { return &tablesCase{} },
 			Gen:      func(r *Rng, i int) Case { return genTables(r) },
